@@ -650,6 +650,21 @@ func c18Check(c C18Case, cx *h.Ctx) *h.Failure {
 	if tBA := geom.ExactEquals(B, A, geom.ToleranceXY(c.Tol)); tAB != tBA {
 		return h.Failf("exactequals/tolerance-asymmetric", "ToleranceXY(%v): (A,B)=%v (B,A)=%v%s", c.Tol, tAB, tBA, desc())
 	}
+	// an option value is a value: stored and applied again and again it means the same thing
+	{
+		opt := geom.ToleranceXY(c.Tol)
+		for r := 0; r < 4; r++ {
+			if got := geom.ExactEquals(A, B, opt); got != tAB {
+				return h.Failf("exactequals/option-value-reuse", "ExactEquals(A,B,opt) with a stored opt = ToleranceXY(%v) gives %v on use %d, a fresh option gives %v%s", c.Tol, got, r+1, tAB, desc())
+			}
+		}
+		fresh := geom.ExactEquals(A, B, geom.IgnoreOrder, geom.ToleranceXY(c.Tol))
+		for r := 0; r < 3; r++ {
+			if got := geom.ExactEquals(A, B, geom.IgnoreOrder, opt); got != fresh {
+				return h.Failf("exactequals/option-value-reuse", "ExactEquals(A,B,IgnoreOrder,opt) with a stored ToleranceXY(%v) gives %v on a later use, a fresh option gives %v%s", c.Tol, got, fresh, desc())
+			}
+		}
+	}
 	if plain[0] && !tAB {
 		return h.Failf("exactequals/tolerance-weaker", "ExactEquals(A,B) but not with ToleranceXY(%v)%s", c.Tol, desc())
 	}
